@@ -77,7 +77,7 @@ def gen_feat(rng, s, R, tag):
     kind, payload, D = STYPES[s]
     C = rng.choice([1, 1, 2, 2, 3])
     ft = {'s': s, 'kind': kind, 'payload': payload, 'C': C,
-          'names': [f'{tag}{s[:3]}{j}' for j in range(C)]}
+          'names': [f'{tag}{s}_{j}' for j in range(C)]}
     if kind == 'dense':
         if D is not None:
             D = rng.choice([7, 7, 2, 1])
@@ -102,7 +102,7 @@ def gen_feat(rng, s, R, tag):
 
 def gen_frame(rng, R=None, rowid=False, allow_empty=True, tag='', min_feats=0):
     """a random well-formed frame spec"""
-    R = rng.choice([0, 1, 2, 3, 3, 4, 5, 6]) if R is None else R
+    R = rng.choice([0, 1, 2, 3, 3, 4, 4, 5, 5, 6, 6, 7]) if R is None else R
     u = rng.random()
     if allow_empty and not rowid and min_feats == 0 and u < .07:
         # feature-less frame: rows only known through the explicit num_rows (or 0)
@@ -136,10 +136,6 @@ def gen_frame(rng, R=None, rowid=False, allow_empty=True, tag='', min_feats=0):
 
 
 # ------------------------------------------------------------------ spec -> real objects
-def _mnt_real(cells, R, C, payload):
-    return ragged.build_real({'kind': 'mnt', 'R': R, 'C': C, 'cells': cells}, 'int') if False else _mnt_from(cells, R, C, payload)
-
-
 def _mnt_from(cells, R, C, payload):
     values, offset = [], [0]
     for row in cells:
@@ -393,6 +389,11 @@ def real_select(tf, ix):
     return tf[ragged.to_py_index(ix)]
 
 
+def intlist(ix):
+    """`isinstance(index, int): index = [index]`"""
+    return {'t': 'list', 'is': [ix['i']]} if ix['t'] == 'int' else ix
+
+
 def run_part(tf, ops):
     """apply a list of row selections to a real frame"""
     for op in ops:
@@ -416,10 +417,36 @@ def model_ops(ops):
     return out
 
 
+def gen_index(rng, n, allow_bad=True):
+    """half of the time an index drawn from the full grammar of C05 (boundaries, overshoots, empties, illegal ones),
+    half of the time one that keeps at least one row (so that chains stay non-trivial)"""
+    if n == 0 or rng.random() < .5:
+        return ragged.gen_index(rng, n, allow_bad)
+    k = rng.choice(['int', 'slice', 'slice', 'list', 'range', 'tensor', 'mask'])
+    if k == 'int':
+        return {'t': 'int', 'i': rng.randint(-n, n - 1)}
+    if k == 'slice':
+        a = rng.randint(0, n - 1)
+        b = rng.choice([None, n, n + 4, rng.randint(a + 1, n)])
+        a = rng.choice([a, a, a - n, None]) if a == 0 else rng.choice([a, a, a - n])
+        return {'t': 'slice', 'a': a, 'b': b, 's': rng.choice([None, None, 1, 2, 3])}
+    if k in ('list', 'tensor'):
+        return {'t': 'list', 'is': [rng.randint(-n, n - 1) for _ in range(rng.randint(1, n + 2))], 'as': k}
+    if k == 'range':
+        a = rng.randint(0, n - 1)
+        b, st = rng.randint(a + 1, n), rng.choice([1, 1, 2])
+        if rng.random() < .3:
+            a, b, st = b - 1, a - 1, -1
+        return {'t': 'list', 'is': list(range(a, b, st)), 'as': 'range', 'range': [a, b, st]}
+    bs = [rng.random() < .6 for _ in range(n)]
+    bs[rng.randrange(n)] = True
+    return {'t': 'mask', 'bs': bs}
+
+
 def gen_sel_ops(rng, n, kmax=3, allow_bad=False):
     ops = []
     for _ in range(rng.randint(1, kmax)):
-        ix = ragged.gen_index(rng, n, allow_bad)
+        ix = gen_index(rng, n, allow_bad)
         ops.append({'op': 'sel', 'ix': ix})
         k = ragged.py_len(ix, n)
         if k is None:
